@@ -13,6 +13,7 @@ request side; on the response side `from_utf8(..).expect(..)` is modelled by `ut
 Core Lean only, total, computable.
 -/
 import Ldap3V.Model.Controls
+import Ldap3V.Model.Entry
 namespace Ldap3V.Codecs
 open Ldap3V
 
@@ -368,6 +369,26 @@ def parseReadEntryOuter (val : Bytes) : Outcome Tlv :=
   match parseTag val with
   | .ok t _ => .ok t
   | _ => .panic
+
+/-- `controls_impl::read_entry::ReadEntryResp { attrs, bin_attrs }` (the struct has no `dn` field:
+the `dn` of the `SearchEntry` that `construct` returns is dropped) -/
+structure ReadEntryResp where
+  /-- `attrs` -/
+  text : AMap (List Bytes)
+  /-- `bin_attrs` -/
+  bin : AMap (List Bytes)
+  deriving Repr, DecidableEq
+
+/-- `impl ControlParser for ReadEntryResp`, whole: `parse_tag` (trailing bytes ignored, failure
+panics), then `SearchEntry::construct(ResultEntry::new(tag))` (Model/Entry.lean `construct`, every
+panic of which is a panic here), then the two maps are moved into the response struct. -/
+def parseReadEntryResp (val : Bytes) : Outcome ReadEntryResp :=
+  match parseReadEntryOuter val with
+  | .panic => .panic
+  | .ok tag =>
+    match construct tag with
+    | .panic => .panic
+    | .ok se => .ok { text := se.text, bin := se.bin }
 
 /-- `impl ExopParser for WhoAmIResp`: `str::from_utf8(val).expect("authzid")` -/
 def parseWhoAmIResp (val : Bytes) : Outcome Bytes :=
